@@ -289,6 +289,9 @@ func main() {
 		}
 		for _, ex := range execs {
 			for _, k := range ks {
+				if ex != "default" && k != 0 && k != 3 {
+					continue // user executors: only without and with the aliasing-prone callback count
+				}
 				for _, T := range sizes {
 					for _, ms := range multisets(nroles, T) {
 						roles := make([]role, T)
